@@ -190,6 +190,7 @@ class HistSim {
   void checkAll(const Op& op, size_t ix, bool relaxedDoc, int relaxedIdx);
   void checkDoc(int d, const char* when);
   void checkRefs();
+  void collectLinkedBuffers();
   void startFaults(const Op& op);
   void stopFaults();
   bool eqExcept(const Val& pre, const Val& post, const std::vector<Sel>& path, size_t depth);
